@@ -1,6 +1,6 @@
 /-
-C09 helper lemmas, part 3: the shape families (chains with simple repeats, volta groups, no structure),
-the finite layout tables, disjointness of the segments and the copy count.
+C09 helper lemmas, part 3: the shape families (chains with simple repeats, no structure),
+disjointness of the segments and the copy count.
 -/
 import PartituraModel.Proofs.C09Variant
 
@@ -42,69 +42,6 @@ theorem allPaths_length (flags : List Bool) (i : Nat) : (allPaths i flags).lengt
     | true =>
       simp only [allPaths, List.length_append, List.length_map, ih, List.count_cons_self]
       rw [Nat.pow_succ]; omega
-
-/-! ### finite layout tables -/
-
-/-- all flag lists of length 1..4 without two adjacent unrepeated sections -/
-def flagTable : List (List Bool) :=
-  let all := [[true], [false],
-    [true, true], [true, false], [false, true],
-    [true, true, true], [true, true, false], [true, false, true], [false, true, true], [false, true, false],
-    [true, true, true, true], [true, true, true, false], [true, true, false, true], [true, false, true, true],
-    [false, true, true, true], [true, false, true, false], [false, true, false, true], [false, true, true, false]]
-  all
-
-/-- sections of 4 divisions each, starting at 0 -/
-def gridLayout (flags : List Bool) : Layout :=
-  { first := 0, last := 4 * flags.length,
-    repeats := ((enum 0 flags).filter (·.2)).map fun q => ((4 * q.1 : Nat), (4 * (q.1 + 1) : Nat)) }
-
-def gridTys (flags : List Bool) : List SegType := (enum 0 flags).map fun q => if q.1 = 0 then .leapEnd else .dflt
-
-def gridTimes (flags : List Bool) : List (Int × Int) := (enum 0 flags).map fun q => ((4 * q.1 : Nat), (4 * (q.1 + 1) : Nat))
-
-/-- volta layouts: `pre`/`post` = is there music before the repeat / after the last bracket;
-`mult` = how many numbers each of the k ≤ 3 brackets carries -/
-structure VoltaCase where
-  pre : Bool
-  post : Bool
-  mult : List Nat
-  deriving DecidableEq, Repr
-
-def voltaTable : List VoltaCase :=
-  [true, false].flatMap fun pre => [true, false].flatMap fun post =>
-    [[1], [2], [1, 1], [2, 1], [1, 2], [2, 2], [1, 1, 1], [2, 1, 1], [1, 2, 1], [1, 1, 2], [2, 2, 2]].map fun m =>
-      { pre := pre, post := post, mult := m }
-
-/-- numbers of bracket j: consecutive integers -/
-def voltaNumbers : Nat → List Nat → List (List Nat)
-  | _, [] => []
-  | n, m :: ms => (List.range m).map (· + n) :: voltaNumbers (n + m) ms
-
-/-- body of 8 divisions starting at `a` (4 when there is music before, else 0), brackets of 4 divisions;
-the repeat ends after every bracket but the last (after the only bracket when k = 1) -/
-def voltaLayout (c : VoltaCase) : Layout :=
-  let a : Nat := if c.pre then 4 else 0
-  let k := c.mult.length
-  let v0 := a + 8
-  let nums := voltaNumbers 1 c.mult
-  let ends := (enum 0 nums).map fun q => (((v0 + 4 * q.1 : Nat) : Int), ((v0 + 4 * (q.1 + 1) : Nat) : Int), q.2)
-  let reps := if k = 1 then [((a : Int), ((v0 + 4 : Nat) : Int))]
-    else (List.range (k - 1)).map fun j => ((a : Int), ((v0 + 4 * (j + 1) : Nat) : Int))
-  { first := 0, last := ((v0 + 4 * k + (if c.post then 4 else 0) : Nat) : Int), repeats := reps, endings := ends }
-
-/-- expected maximal path: [pre] then for every bracket j and every number it carries: body, bracket j; [post] -/
-def voltaMax (c : VoltaCase) : List Nat :=
-  let b : Nat := if c.pre then 1 else 0
-  let k := c.mult.length
-  (if c.pre then [0] else []) ++
-    ((enum 0 c.mult).flatMap fun q => (List.replicate q.2 [b, b + 1 + q.1]).flatten) ++
-    (if c.post then [b + k + 1] else [])
-
-def voltaMin (c : VoltaCase) : List Nat :=
-  let b : Nat := if c.pre then 1 else 0
-  let k := c.mult.length
-  (if c.pre then [0] else []) ++ [b, b + k] ++ (if c.post then [b + k + 1] else [])
 
 /-! ### no structure -/
 
